@@ -530,6 +530,40 @@ func genHierarchy(r *RNG) *kCase {
 		probe("Outer::Tool.build", ch, "build returns what help returns", "module-implicit:extend")
 		probe("Outer::Tool.new.help", "", "an extended module gives no instance methods", "module-short-name:extend")
 	}
+	// ----- a singleton body with a visibility section of its own, written inside a
+	// private (protected) section that goes on after it
+	if r.Chance(1, 3) {
+		kw := Pick(r, []string{"private", "protected"})
+		inner := kw
+		if r.Chance(1, 3) {
+			inner = Pick(r, []string{"private", "protected"})
+		}
+		cv := Pick(r, scal)
+		emit("class Vault")
+		emit("  def open_one")
+		emit("    " + nLit(cv))
+		emit("  end")
+		emit("  " + kw)
+		emit("  def hidden_before")
+		emit("    1")
+		emit("  end")
+		emit("  class << self")
+		emit("    " + inner)
+		emit("    def cls_hidden")
+		emit("      1")
+		emit("    end")
+		emit("  end")
+		emit("  def hidden_after")
+		emit("    1")
+		emit("  end")
+		emit("end")
+		emit("vault = Vault.new")
+		probe("vault.open_one", cv, "a public method before the section", "singleton-section:"+kw+"/"+inner)
+		for _, hm := range []string{"hidden_before", "hidden_after"} {
+			kc.Expects = append(kc.Expects, kExpect{Row: row(), Kind: "error", What: hm + " is " + kw + " (the section goes on after the class << self block)", Feat: "singleton-section:" + kw + "/" + inner})
+			emit("vault." + hm)
+		}
+	}
 	// ----- a protected method that comes from an included module
 	if r.Chance(1, 3) {
 		cq := Pick(r, scal)
